@@ -15,6 +15,8 @@ irrespective of direction for HTTP, the directed 4-tuple for TLS, the source add
 and always a valid worker index."  — `identityTcp/Tls`, `SameConn`, and, independently of what any
 decoder of the code does, `wireEndpoints`: the endpoints of a well-formed TCP/IP frame of a
 *declared* link type, read off RFC 791 / 8200 / 793 / the BSD loopback header.
+(The former exclusion classes KF.C18.looksLikeEthernet / nullFraming / versionNibble are gone: since
+fix C18 the hashers locate the IP header exactly as `parse_packet` does.)
 -/
 namespace Huginn.Wire.Spec
 open Huginn.Wire Huginn.Filter
@@ -119,39 +121,15 @@ def wireEndpoints (fr : Framing) (p : Bytes) : Option Ep :=
       else if le ∈ [24, 28, 30] ∨ be ∈ [24, 28, 30] then wireV6 (p.drop 4)
       else none
 
+/-- The analyzers' link-layer decoder (`parse_packet`, which is handed bytes only and never the
+capture's link type) takes the frame for what the capture declares it to be. The wire-level statements
+(B) carry this as their one explicit hypothesis: where it fails the analyzers themselves decode some
+other frame (a raw IPv4 frame of ≥ 34 bytes from 8.0.x.x is *analysed* as Ethernet), so there is no
+connection state the dispatcher could keep together; that is a limit of content sniffing in
+packet_parser.rs, shared by every analyzer and every property, not of the dispatch hash.
+Ethernet frames always satisfy it (`linkHonoured_eth`); for raw IP it says exactly that the parser's
+Ethernet strategy does not fire (`linkHonoured_raw`). -/
+def LinkHonoured (fr : Framing) (p : Bytes) : Prop := (parsePacket p).map (·.fr) = some fr
+instance (fr p) : Decidable (LinkHonoured fr p) := by unfold LinkHonoured; exact inferInstance
+
 end Huginn.Wire.Spec
-
-/-! ## known-finding classes (decidable exclusion predicates) -/
-namespace Huginn.KF.C18
-open Huginn.Wire
-
-/-- The frame is raw IP or NULL framing (`fr`: as decoded by the analyzer, or as declared by the
-capture), but the hashers' "Ethernet header present" test fires (bytes 12–13 are `08 00` /
-`86 dd`: raw IPv4 from 8.0.x.x / 134.221.x.x, raw IPv6 with those bytes in the source address)
-and they look for the IP header at offset 14. -/
-def looksLikeEthernet (fr : Framing) (p : Bytes) : Prop := fr ≠ .eth ∧ looksEth p = true
-instance (fr p) : Decidable (looksLikeEthernet fr p) := by unfold looksLikeEthernet; exact inferInstance
-
-/-- NULL/loopback framing: the hashers know only Ethernet and raw IP; the frame is hashed as a
-whole (TCP, HTTP) or discarded (TLS). -/
-def nullFraming (fr : Framing) : Prop := fr = .null
-instance (fr) : Decidable (nullFraming fr) := by unfold nullFraming; exact inferInstance
-
-/-- Ethernet framing where ethertype and IP version nibble disagree: the parser goes by the
-ethertype (and so does the analyzer), the hashers by the nibble. -/
-def versionNibble (l : Located) : Prop :=
-  l.fr = .eth ∧ ¬ (byte l.ip 0 / 16 = (match l.ver with | .v4 => 4 | .v6 => 6))
-instance (l) : Decidable (versionNibble l) := by unfold versionNibble; exact inferInstance
-
-/-- The frame, as the analyzer decodes it, lies in one of the classes. -/
-def seen (a : Analyzer) (p : Bytes) : Prop :=
-  match analyzerView a p with
-  | none => False
-  | some v => looksLikeEthernet v.loc.fr p ∨ nullFraming v.loc.fr ∨ versionNibble v.loc
-instance (a p) : Decidable (seen a p) := by unfold seen; split <;> exact inferInstance
-
-/-- The frame of declared link type `fr` lies in one of the classes. -/
-def wire (fr : Framing) (p : Bytes) : Prop := looksLikeEthernet fr p ∨ nullFraming fr
-instance (fr p) : Decidable (wire fr p) := by unfold wire; exact inferInstance
-
-end Huginn.KF.C18
